@@ -12,6 +12,11 @@ CHECKS = {
    text="Theorems pn_decode_eq_rfc (impl = RFC 9000 A.3 for all largest, n in 1..4, all truncated values), pn_decode_window, pn_space_isolation, pn_entry_is_max are kernel-checked with no bound. The model (TLX/Quic/PktNum.lean) is executed against the real method on ~37k single-step cases around every window boundary plus packet histories; the real method is also compared with a literal transcription of RFC 9000 A.3.",
    note=NOTE_COMMON + "Modelled: get_full_packet_number incl. its largest==0 shortcut and table update. Not modelled: how decrypt_packet turns the result into the nonce (covered by C02).",
    design="§8.16"),
+ "C14": dict(
+   technique="Lean 4 proof by kernel evaluation (decide +kernel) over the cipher table regenerated from /repo on every run, lifted to all code points by lookup lemmas + exhaustive 65536-point correspondence",
+   text="resolve_sound_complete: for every code point c, the model of split_cipher_suite over the *generated* table returns none iff c is not in the table, and otherwise the table name is the IANA name of c (independent registry copy) and the parameters equal what an independent token-grammar parser says the name denotes. The table is re-extracted from the working tree each run, so the kernel re-checks the theorem against the current source; the real function is compared with the model and with a Python copy of the spec on all 65 536 code points.",
+   note=NOTE_COMMON + "Regenerated: cipher_suites and cipher_suite_parts (dumped from the imported module). Hand-modelled: the 30-line split_cipher_suite loop. Trusted additionally: my transcription of the IANA registry (352 entries) and the name grammar.",
+   design="§8.14"),
 }
 
 NOT_YET = {}
